@@ -199,6 +199,8 @@ def run_federated_experiment(
   client_sampler.set_round_num(start_round_num)
 
   start = time.time()
+  # Defined even if no round is left to run (restart after the last round).
+  round_num = start_round_num - 1
   for round_num in range(start_round_num, config.num_rounds + 1):
     # Get a random state and randomly sample clients.
     clients = client_sampler.sample()
